@@ -97,6 +97,16 @@ Theorem C32_similar_field_set :
 Proof. exact similar_field_set_pinned. Qed.
 
 Print Assumptions C32_similar_field_set.
+(* a tree whose blob is already in the destination is still walked and its whole closure ends up in the
+   destination (presence of a TREE blob says nothing about its data: interrupted copies leave tree packs
+   without data packs) *)
+Theorem C32_tree_in_destination_still_walked : forall g fuel dst root v' d',
+  In root dst ->
+  copy_trees g fuel ([], dst) [root] = Some (v', d') ->
+  In root v' /\ forall b, reach g root b -> In b d'.
+Proof. exact tree_in_destination_still_walked. Qed.
+
+Print Assumptions C32_tree_in_destination_still_walked.
 Print Assumptions C32_copy_idempotent.
 Print Assumptions C32_copy_faithful.
 Print Assumptions C32_copy_monotone.
